@@ -25,3 +25,12 @@ Lemma cast_oz_null v : fisnan qops (cast_oz v) = is_none d_oz v.
 Proof. destruct v; reflexivity. Qed.
 Lemma qops_nan_null : fisnan qops (fnanv qops) = true.
 Proof. reflexivity. Qed.
+
+(* a float-like type with exact arithmetic: option Z, None plays NaN; subtraction propagates it *)
+Definition d_fz : NullDict (option Z) (option Z) :=
+  dict_float (fun o : option Z => match o with Some _ => false | None => true end) None.
+Definition sub_fz (a b : option Z) : option Z :=
+  match a, b with Some x, Some y => Some (x - y)%Z | _, _ => None end.
+Lemma sub_fz_null a b :
+  is_none d_fz a = true \/ is_none d_fz b = true -> is_none d_fz (sub_fz b a) = true.
+Proof. destruct a, b; cbn; intros [H|H]; try discriminate; reflexivity. Qed.
